@@ -3,6 +3,8 @@ package main
 import (
 	"bytes"
 	"fmt"
+	"github.com/keybase/saltpack"
+	"io"
 	"strings"
 )
 
@@ -61,6 +63,15 @@ func genC18(h *H) {
 		n = 1000
 	}
 	h.Run(Case{Op: "fresh", A: map[string]string{"n": fmt.Sprint(n), "seed": hx(h.rng.Bytes(8))}})
+	// a stream that is used again after Close (a late Write, a second Close, a retried Close): whatever it still emits
+	// must be protected by THIS message's fresh secrets - two messages with identical inputs and different randomness
+	// must not emit identical bytes after their first Close
+	for _, kind := range []string{"enc1", "enc2", "sc"} {
+		for _, ops := range []string{"W,C,W,C", "W,C,C", "C,W,C", "W,C,W,W,C"} {
+			h.tag("late-use")
+			h.Run(Case{Op: "late_use", A: map[string]string{"kind": kind, "ops": ops, "r1": hx(h.rng.Bytes(200)), "r2": hx(h.rng.Bytes(200))}})
+		}
+	}
 }
 
 func init() {
@@ -129,6 +140,55 @@ func init() {
 				fs = append(fs, Failure{Kind: "oracle", Key: "rng-fault-swallowed-" + c.A["kind"], Desc: fmt.Sprintf("%s with %d recipients: Read call %d of %d on the randomness source failed (transiently), yet the operation succeeded and emitted %d bytes", c.A["kind"], nr, k, total, len(out))})
 				break
 			}
+		}
+		return
+	}}
+	evaluators["late_use"] = evaluator{run: func(h *H, c Case) (fs []Failure) {
+		run := func(rng []byte) (tail []byte, err error) {
+			var buf bytes.Buffer
+			withRand(rng, func() {
+				err = guard(func() error {
+					rsk := boxSecretFromBytes(bytes.Repeat([]byte{5}, 32))
+					rcpt := []saltpack.BoxPublicKey{boxPubFromBytes(rsk.GetPublicKey().ToKID(), false)}
+					var w io.WriteCloser
+					var e error
+					switch c.A["kind"] {
+					case "enc1":
+						w, e = saltpack.NewEncryptStream(saltpack.Version1(), &buf, boxSecretFromBytes(bytes.Repeat([]byte{6}, 32)), rcpt)
+					case "enc2":
+						w, e = saltpack.NewEncryptStream(saltpack.Version2(), &buf, boxSecretFromBytes(bytes.Repeat([]byte{6}, 32)), rcpt)
+					default:
+						w, e = saltpack.NewSigncryptSealStream(&buf, &hRing{}, sigSecretFromBytes(newSigSecret(bytes.Repeat([]byte{3}, 32))), rcpt, nil)
+					}
+					if e != nil {
+						return e
+					}
+					closed := -1
+					for _, op := range strings.Split(c.A["ops"], ",") {
+						if op == "W" {
+							w.Write([]byte("a trailer that is written late"))
+						} else {
+							w.Close()
+							if closed < 0 {
+								closed = buf.Len()
+							}
+						}
+					}
+					if closed >= 0 {
+						tail = append([]byte{}, buf.Bytes()[closed:]...)
+					}
+					return nil
+				})
+			})
+			return
+		}
+		t1, e1 := run(unhx(c.A["r1"]))
+		t2, e2 := run(unhx(c.A["r2"]))
+		if e1 != nil || e2 != nil {
+			return // a stream that refuses or panics on late use emits nothing unprotected
+		}
+		if len(t1) > 0 && bytes.Equal(t1, t2) {
+			fs = append(fs, Failure{Kind: "oracle", Key: "late-blocks-not-under-fresh-secrets", Desc: fmt.Sprintf("%s, operations %s: the %d bytes emitted after the first Close are IDENTICAL in two messages made with different randomness: they are not protected by the message's fresh key", c.A["kind"], c.A["ops"], len(t1))})
 		}
 		return
 	}}
